@@ -2,6 +2,7 @@
 package props
 
 import (
+	"encoding/json"
 	"fmt"
 	"math"
 	"sort"
@@ -135,4 +136,15 @@ func wellFormed(c *Case, r *Response, expected []string) []Violation {
 		}
 	}
 	return vs
+}
+
+func jsonUnmarshal(b []byte, v interface{}) error { return json.Unmarshal(b, v) }
+
+// cur is the shard being enumerated in this process (nil during replay); stat counts on it.
+var cur *Shard
+
+func stat(name string) {
+	if cur != nil {
+		cur.Counters[name]++
+	}
 }
